@@ -261,10 +261,12 @@ def gen_headings(rng):
         blocks.append("REF%d %s." % (j, form % key)); refs.append(j)
     if rng.random() < 0.6: blocks.insert(rng.randrange(len(blocks) + 1) if rng.random() < 0.5 else len(blocks), "{{TOC}}")
     cap = None
-    if rng.random() < 0.4:
+    if rng.random() < 0.5:
         cap = "Table " + rng.choice(["One", "two 2", "R&D"])
-        blocks.append("| a | b |\n|---|---|\n| 1 | 2 |\n[%s]" % cap)
-        blocks.append("REFT [%s][]." % cap)
+        form = rng.choice(["[%s]", "[%s][tlab]", "[%s] [tlab]", "[%s]\t[tlab]"])        # caption alone, with a label, with a separated label
+        blocks.append("| a | b |\n|---|---|\n| 1 | 2 |\n" + form % cap)
+        # a label directly after the caption names the table; otherwise the caption text does
+        blocks.append("REFT [%s][]." % ("tlab" if form == "[%s][tlab]" else cap))
     start = blocks[0].startswith("Title:")
     text = ("\n\n".join(blocks) + "\n")
     return text.encode(), heads, cap
